@@ -1,5 +1,5 @@
 prop("C19", pkg="c19",
-     rule="rapid draws a message schema (as for C12; maps restricted to map<string,V>, field numbers incl. 255/256/257/300/317-319/2047/2048/65535/65536/70000/2^29-1) and, "
+     rule="rapid draws a message schema (as for C12 without the method-carrying types: untagged (numbered by the running count of exported fields) or fully tagged messages, a quarter of them with 1-2 unexported Go fields declared before / between / after the exported ones; maps restricted to map<string,V>, field numbers incl. 255/256/257/300/317-319/2047/2048/65535/65536/70000/2^29-1) and, "
           "per schema, 2-5 (thorough: 8-20) (rewriter, input) pairs. Rewriter: ParseRewriteTemplate(TypeOf(type), JSON) over a random subset of fields (non-zero, zero and null scalars; "
           "nested partial templates for singular messages to depth 3; arrays of non-zero elements / complete objects for repeated fields; objects with non-empty keys "
           "and non-zero values for maps), the same with RewriterRules carrying BitOr[T] on singular integer fields (nested rules for sub-messages), or a hand-assembled "
